@@ -237,7 +237,7 @@ TS_STRINGS = [
 # ----------------------------------------------------------------------------- main
 def gen_case(ctx, rng, depth, sha, domain_lambdas=True):
     while True:
-        tj = G.gen_type(rng, depth)
+        tj = G.gen_type(rng, depth, tickets=True)
         ok, T = lib.call(match_type, tj)
         if ok:
             break
@@ -295,7 +295,7 @@ def check_value(ctx, batch, rng, tj, T, n, v, malformed=0, reported=None):
         if not ok2:
             out_viol.append((f'{mode} rendering does not parse back: {back}', dict(m2, output=out,
                              repro=f"T=MichelsonType.match({tdesc}); T.from_micheline_value({json.dumps(out)})")))
-        elif not (back == obj) or a2 != v:
+        elif (not has_ticket(v) and not (back == obj)) or a2 != v:   # TicketType defines no __eq__: abstract values decide
             out_viol.append((f'{mode} round trip yields a different value', dict(m2, output=out, got=repr(a2),
                              repro=f"T=MichelsonType.match({tdesc}); v=T.from_micheline_value({json.dumps(rj)}); T.from_micheline_value(v.to_micheline_value('{mode}')) == v")))
     # malformed stream: mutations of the renderings
@@ -328,11 +328,21 @@ def check_value(ctx, batch, rng, tj, T, n, v, malformed=0, reported=None):
     return out_viol
 
 
+def has_ticket(v) -> bool:
+    if isinstance(v, tuple):
+        return bool(v) and (v[0] == 'ticket' or any(has_ticket(x) for x in v[1:]))
+    if isinstance(v, list):
+        return any(has_ticket(x) for x in v)
+    return False
+
+
 def has_empty_ep(v) -> bool:
     """class of known finding C11/empty-entrypoint: an address-like value whose text ends with a bare '%'"""
     if isinstance(v, tuple):
         if v and v[0] == 'addr':
             return v[3] == b''
+        if v and v[0] == 'ticket' and v[3] == b'':
+            return True
         return any(has_empty_ep(x) for x in v[1:])
     if isinstance(v, list):
         return any(has_empty_ep(x) for x in v)
@@ -429,9 +439,9 @@ TICKET_CONTENTS = [
 
 
 def ticket_stream(ctx, rng, count):
-    """tickets are not in the Coq model (C20 owns them): oracle (B) only — a ticket (ticketer, content, amount) built from
-    Micheline must survive the three renderings; consecutive tickets deliberately share the head primitive of their content type"""
-    viol = []
+    """typed ticket values (plain and inside option / list / pair); consecutive tickets deliberately share the head
+    primitive of their content type.  They go through check_value like every other value: comparisons (A) and (B)."""
+    out = []
     for i in range(count):
         content = rng.choice(TICKET_CONTENTS)
         wrap = rng.choice(['plain', 'plain', 'option', 'list', 'pair'])
@@ -441,41 +451,11 @@ def ticket_stream(ctx, rng, count):
         ok, T = lib.call(match_type, tj)
         if not ok:
             continue
-        cn = G.norm_type(content)
-        cv = G.gen_value(rng, cn, None, size=2)
-        ticketer = G.b58('KT1', G.gen_hash20(rng))
-        amount = rng.choice([1, 2, 63, 64, 2 ** 64, rng.getrandbits(40) + 1])
-        tick = {'prim': 'Pair', 'args': [{'string': ticketer}, {'prim': 'Pair', 'args': [G.readable_json(cv, None, rng), {'int': str(amount)}]}]}
-        lit = {'plain': tick, 'option': {'prim': 'Some', 'args': [tick]}, 'list': [tick, tick],
-               'pair': {'prim': 'Pair', 'args': [{'int': '7'}, tick]}}[wrap]
-
-        def tickets(o):
-            from pytezos.michelson import types as TT
-            if isinstance(o, TT.TicketType):
-                return [(o.ticketer, G.ast_of_obj(o.item), o.amount)]
-            if isinstance(o, TT.OptionType):
-                return tickets(o.item) if o.item is not None else []
-            if isinstance(o, (TT.ListType, TT.PairType)):
-                return [t for x in o.items for t in tickets(x)]
-            return []
-
-        want = [(ticketer, cv, amount)] * (2 if wrap == 'list' else 1)
-        ctx.case(('ticket', json.dumps(tj), json.dumps(lit)), nontrivial=True, kind='ticket:' + content['prim'])
-        meta = {'type': tj, 'value': lit}
-        ok, obj = lib.call(T.from_micheline_value, copy.deepcopy(lit))
-        if not ok or tickets(obj) != want:
-            viol.append((f'from_micheline_value does not build the ticket the literal denotes: {obj if not ok else tickets(obj)}',
-                         dict(meta, repro=f"MichelsonType.match({json.dumps(tj)}).from_micheline_value({json.dumps(lit)})")))
-            continue
-        for mode in G.MODES:
-            ok1, out = lib.call(obj.to_micheline_value, mode)
-            ok2, back = lib.call(T.from_micheline_value, copy.deepcopy(out)) if ok1 else (False, out)
-            if not ok1 or not ok2 or tickets(back) != want:
-                viol.append((f'{mode} round trip of a ticket fails: {back if not (ok1 and ok2) else tickets(back)}',
-                             dict(meta, mode=mode, output=out if ok1 else None,
-                                  repro=f"T=MichelsonType.match({json.dumps(tj)}); T.from_micheline_value(T.from_micheline_value({json.dumps(lit)}).to_micheline_value('{mode}'))")))
-                break
-    return viol
+        tick = G.gen_value(rng, G.norm_type(tt), None, size=2)
+        v = {'plain': tick, 'option': ('some', tick), 'list': ('list', [tick, tick]), 'pair': ('pair', ('int', 7), tick)}[wrap]
+        ctx.dist['ticket:' + content['prim']] += 1
+        out.append((tj, T, G.norm_type(tj), v))
+    return out
 
 
 TIMEZONES = ['America/New_York', 'Asia/Kolkata', 'Pacific/Kiritimati', 'Europe/London']
@@ -540,7 +520,7 @@ def run(ctx: lib.Ctx) -> None:
     viols = []
     viols += fixed_witnesses(ctx)
     finding_witnesses(ctx)
-    viols += ticket_stream(ctx, rng, ctx.n(60, 600))
+    ticket_cases = ticket_stream(ctx, rng, ctx.n(40, 400))
     viols += timezone_slice(ctx, rng, ctx.n(40, 400))
     bads = []
 
@@ -548,7 +528,7 @@ def run(ctx: lib.Ctx) -> None:
     viols += tv
     tb = []
 
-    nvals = ctx.n(220, 2000)
+    nvals = ctx.n(200, 2000)
     per_batch = 220 if not ctx.thorough else 1000
     done = 0
     # corpus first
@@ -563,6 +543,8 @@ def run(ctx: lib.Ctx) -> None:
         okm, am, _ = from_mich(T, c['input'])
         batch.add_of(n, c['input'], okm, am, {'type': c['type'], 'input': c['input'], 'corpus': True})
         ctx.corpus_cases += 1
+    for tj, T, n, v in ticket_cases:
+        viols += check_value(ctx, batch, rng, tj, T, n, v, malformed=1)
     while done < nvals:
         for _ in range(min(per_batch, nvals - done)):
             depth = rng.choice([1, 2, 2, 3, 3, 4])
